@@ -25,6 +25,24 @@ class FortranCodegenConservative(FortranCodegen):
             return o.source.string
         return super().visit_Node(o, *args, **kwargs)
 
+    def visit_tuple(self, o, **kwargs):
+        """
+        Recurse for each item in the tuple and return as separate lines.
+        Insert labels if existing, unless the text recovered from source
+        already starts with the label.
+        """
+        lines = []
+        for item in o:
+            line = self.visit(item, **kwargs)
+            label = getattr(item, 'label', None)
+            if label is not None and line is not None and line.split(maxsplit=1)[:1] == [str(label)]:
+                label = None
+            line = self.apply_label(line, label)
+            lines.append(line)
+        return self.join_lines(*lines)
+
+    visit_list = visit_tuple
+
     def visit_Assignment(self, o, *args, **kwargs):
         if o.source and o.source.status == SourceStatus.VALID:
             return o.source.string
